@@ -10,7 +10,8 @@ from .engine import (Adt, Ref, Cell, BoxCell, Opaque, Unsupported, clone, lit, l
                      f_uuid_ok, f_uuid_hyph, f_dec_ok, f_dec_n, f_dec_d, f_addr_ok, f_marker_found, f_marker_dec, f_marker_type,
                      f_attr_ok, f_sv_ok, f_sv_maj, f_sv_min, f_sv_pat, f_sv_pre, f_numstr, strip_generics)
 
-f_decstr = z3.Function('decstr', z3.IntSort(), z3.IntSort(), StrS)      # Decimal::to_string
+f_decstr = z3.Function('decstr', z3.IntSort(), z3.IntSort(), StrS)      # Decimal::to_string of a computed value
+f_deccanon = z3.Function('deccanon', StrS, StrS)                        # Decimal::to_string of a value parsed from that text
 POW10 = [10 ** i for i in range(40)]
 TWO96 = 2 ** 96
 TWO128 = 2 ** 128
@@ -541,7 +542,7 @@ def dec(ex, v):
 
 def m_dec_from_str(ex, st, a, c, m):
     s = sval(ex, a[0])
-    return [(f_dec_ok(s), ok(Dec(f_dec_n(s), f_dec_d(s)))), (z3.Not(f_dec_ok(s)), err(Adt('rust_decimal::Error', None, [])))]
+    return [(f_dec_ok(s), ok(Dec(f_dec_n(s), f_dec_d(s), False, s))), (z3.Not(f_dec_ok(s)), err(Adt('rust_decimal::Error', None, [])))]
 
 
 def _fits96(ex, n):
@@ -609,6 +610,8 @@ def m_dec_fract(ex, st, a, c, m):
     n, d = x.fields[0], x.fields[1]
     if z3.is_int_value(d) and d.as_long() == 1:
         return [(True, Dec(z3.IntVal(0), z3.IntVal(1)))]
+    if z3.is_int_value(d):
+        return [(n >= 0, Dec(n % d, d)), (n < 0, Opaque('OOB', 'fract of negative'))]
     q, r = ex.euclid(st, n, d)
     return [(n >= 0, Dec(r, d)), (n < 0, Opaque('OOB', 'fract of negative'))]
 
@@ -643,12 +646,16 @@ def m_dec_to_u128(ex, st, a, c, m):
     n, d = x.fields[0], x.fields[1]
     if z3.is_int_value(d) and d.as_long() == 1:
         return [(n >= 0, some(n)), (n < 0, NONE())]
+    if z3.is_int_value(d):
+        return [(n >= 0, some(n / d)), (n < 0, NONE())]
     q, r = ex.euclid(st, n, d)
     return [(n >= 0, some(q)), (n < 0, NONE())]
 
 
 def m_dec_to_string(ex, st, a, c, m):
     x = dec(ex, a[0])
+    if x.fields[3] is not None:
+        return [(True, f_deccanon(x.fields[3]))]
     return [(True, f_decstr(x.fields[0], x.fields[1]))]
 
 
@@ -678,13 +685,30 @@ def round_constraint(strategy, n, d, r, tolerant):
 
 def m_dec_round(ex, st, a, c, m):
     x = dec(ex, a[0])
-    n, d, inexact = x.fields
+    n, d, inexact = x.fields[:3]
     dp = z3.simplify(a[1]) if isinstance(a[1], z3.ExprRef) else z3.IntVal(a[1])
     strat = a[2]
     if not (z3.is_int_value(dp) and dp.as_long() == 0):
         raise Unsupported('round_dp to %s places' % dp)
     if z3.is_int_value(d) and d.as_long() == 1:
         return [(True, Dec(n, z3.IntVal(1)))]
+    if z3.is_int_value(d) and not inexact:
+        # constant denominator: closed forms (n >= 0)
+        sv = strat.variant
+        if sv in ('MidpointAwayFromZero', 'RoundHalfUp'):
+            r = (2 * n + d) / (2 * d)
+        elif sv in ('MidpointTowardZero', 'RoundHalfDown'):
+            r = (2 * n + d - 1) / (2 * d)
+        elif sv in ('ToZero', 'RoundDown', 'ToNegativeInfinity'):
+            r = n / d
+        elif sv in ('AwayFromZero', 'RoundUp', 'ToPositiveInfinity'):
+            r = (n + d - 1) / d
+        elif sv in ('MidpointNearestEven', 'BankersRounding'):
+            up = (2 * n + d) / (2 * d)
+            r = z3.If(z3.And((2 * n + d) % (2 * d) == 0, up % 2 == 1), up - 1, up)
+        else:
+            raise Unsupported('rounding strategy %s' % sv)
+        return [(n >= 0, Dec(r, z3.IntVal(1))), (n < 0, Opaque('OOB', 'rounding a negative value'))]
     key = (n.get_id(), d.get_id(), strat.variant)
     hit = ex._round.get(key)
     if hit is None or not (z3.eq(hit[0], n) and z3.eq(hit[1], d)):
